@@ -134,8 +134,8 @@ theorem nodup_dedup : ∀ (l : List Nat), (dedup l).Nodup := by
 /-- **`Fits` from the configuration**: at most `maxLook` blocks and all accounted bytes within
     `object_max_cache_size` -/
 theorem fits_of_total (rc : RxCfg) (o : ObjCfg) (h1 : o.ks.size ≤ rc.maxLook)
-    (h2 : totalBytes o.blen o.blen.size ≤ rc.maxSize) : Fits rc o := by
-  refine ⟨h1, ?_⟩
+    (h2 : totalBytes o.blen o.blen.size ≤ rc.maxSize) (h3 : rc.pktCap = none) : Fits rc o := by
+  refine ⟨h1, ?_, h3⟩
   intro got sbn hfresh
   unfold allocBytes distinctSbns
   -- sbn :: (distinct blocks of got) is duplicate-free
